@@ -1,8 +1,11 @@
 package msgpackpatch
 
 import (
+	"bytes"
 	"errors"
 	"fmt"
+
+	"github.com/vmihailenco/msgpack/v5"
 )
 
 // OpKind identifies a mutation operation.
@@ -57,7 +60,30 @@ func Apply(blob []byte, ops []Op) ([]byte, error) {
 	return skel.Serialize(blob)
 }
 
+// validateOpValue rejects a Value that is not exactly one well-formed msgpack
+// value: it would be spliced into the body verbatim and a reported success
+// would leave a malformed body.
+func validateOpValue(op Op) error {
+	switch op.Kind {
+	case OpSet, OpInc, OpAppend, OpPrepend, OpRemoveVal, OpMerge:
+		if len(op.Value) == 0 {
+			return nil // reported by the op itself
+		}
+		r := bytes.NewReader(op.Value)
+		if err := msgpack.NewDecoder(r).Skip(); err != nil {
+			return fmt.Errorf("%w: Value is not well-formed msgpack: %v", ErrInvalidOp, err)
+		}
+		if r.Len() != 0 {
+			return fmt.Errorf("%w: Value has %d trailing bytes", ErrInvalidOp, r.Len())
+		}
+	}
+	return nil
+}
+
 func applyOp(skel *Skeleton, orig []byte, op Op, path *Path) error {
+	if err := validateOpValue(op); err != nil {
+		return err
+	}
 	switch op.Kind {
 	case OpSet:
 		return applySet(skel, op, path)
